@@ -1,0 +1,29 @@
+// Copyright (c) The Thanos Community Authors.
+// Licensed under the Apache License 2.0.
+
+package model
+
+import "context"
+
+// Drain returns batch, the last batch read from op (may be nil), to op's pool
+// and reads op to the end of its stream. Operators use it when one of their
+// inputs has ended: like the Prometheus engine, which evaluates every operand
+// completely, an error in the remaining inputs still fails the query.
+func Drain(ctx context.Context, op VectorOperator, batch []StepVector) error {
+	for {
+		for _, vector := range batch {
+			op.GetPool().PutStepVector(vector)
+		}
+		if batch != nil {
+			op.GetPool().PutVectors(batch)
+		}
+
+		var err error
+		if batch, err = op.Next(ctx); err != nil {
+			return err
+		}
+		if batch == nil {
+			return nil
+		}
+	}
+}
